@@ -198,7 +198,7 @@ pub fn run(case: &Case, ctx: &mut Ctx) -> CaseOutcome {
     if let Some(f) = &r.hung {
         // the per-file pass itself never returns, with no coordinator or pool involved
         if prop == "C03" {
-            out.violate("C03", "hang", format!("processing {f} alone (one file, calling thread) did not return within 90 s"));
+            out.violate("C03", "hang", format!("processing {f} alone (one file, calling thread) did not return within 60 s"));
         }
         out.poisoned = true;
         out.recorded = Some(case.clone());
